@@ -26,7 +26,7 @@ HARNESSES = {}  # property id -> list[Harness]
 
 class Harness:
     def __init__(self, prop, name, fn, *, params=None, raises=(), budget_violation=False, max_steps=200000, tiers=("quick", "thorough"),
-                 bounds="", outside="", must_reach=(), native_step_limit=2_000_000, weight=1, compare_result=True):
+                 bounds="", outside="", must_reach=(), native_step_limit=2_000_000, weight=1, compare_result=True, per_job=False):
         self.prop, self.name, self.fn = prop, name, fn
         self.params = params if params is not None else [{}]
         self.raises = tuple(raises)
@@ -38,6 +38,7 @@ class Harness:
         self.native_step_limit = native_step_limit
         self.weight = weight
         self.compare_result = compare_result
+        self.per_job = per_job  # every parameter set must reach the must_reach labels on some feasible path
 
     def jobs(self, tier):
         ps = self.params(tier) if callable(self.params) else self.params
@@ -268,8 +269,48 @@ class NativeOutcome:
         return f"<native {self.kind} {self.value!r} failed={self.failed_label}>"
 
 
+class ModuleState:
+    """module-level mutable containers of the repository (registries, and any cache a change might introduce) are restored to their
+    import-time contents before every path and every native run, so that runs are independent of each other"""
+
+    _snap = None
+
+    @classmethod
+    def _targets(cls):
+        for n, m in list(sys.modules.items()):
+            if m is not None and (n == "dpapi_ng" or n.startswith("dpapi_ng.")):
+                for k, v in list(vars(m).items()):
+                    if isinstance(v, (dict, list, set)) and not k.startswith("__"):
+                        yield m, k, v
+
+    @classmethod
+    def snapshot(cls):
+        if cls._snap is None:
+            cls._snap = {}
+            for m, k, v in cls._targets():
+                cls._snap[(m.__name__, k)] = (v, type(v)(v))
+
+    @classmethod
+    def restore(cls):
+        cls.snapshot()
+        for m, k, v in cls._targets():
+            key = (m.__name__, k)
+            if key in cls._snap:
+                obj, pristine = cls._snap[key]
+                if obj is v and v != pristine:
+                    v.clear()
+                    (v.update if isinstance(v, (dict, set)) else v.extend)(pristine)
+            else:
+                # a container that did not exist at import time: empty it
+                try:
+                    v.clear()
+                except Exception:
+                    pass
+
+
 def run_native(h: Harness, params, inputs, step_limit=None):
     """run the harness natively on concrete inputs; returns NativeOutcome(kind in return/raise/budget/assume/checkfail)"""
+    ModuleState.restore()
     ctx = NativeCtx(inputs, step_limit or h.native_step_limit)
     old = sys.gettrace()
     prev_engine = Engine.current
